@@ -39,8 +39,10 @@ def model_triples(inds, dists):
     return [(int(toks[i]), int(toks[i + 1]), int(toks[i + 2])) for i in range(0, len(toks), 3)]
 
 
-def check_case(res, rng, metric, kind):
+def check_case(res, rng, metric, kind, force=None):
     n = int(rng.choice([8, 40, 150])); k = int(rng.choice([2, 5, 9])); dim = 4
+    if force:
+        n, k = force.get("n", n), force.get("k", k)
     if n <= k + 1:
         n = k + 3
     X, L = api.gen_dataset(rng, metric, kind, n, dim)
@@ -50,6 +52,8 @@ def check_case(res, rng, metric, kind):
     kw = api.metric_kwds(metric, rng, dim)
     params = {"search_epsilon": float(rng.choice([0.0, 0.1, 0.3])), "tree_init": bool(rng.integers(3) > 0),
               "low_memory": bool(rng.integers(2)), "n_jobs": [None, 2][int(rng.integers(2))], "random_state": int(rng.integers(10 ** 6))}
+    if force:
+        params.update({a: b for a, b in force.items() if a in params})
     case = {"metric": metric, "kind": kind, "n": n, "k": k, "kwds": kw, "params": params}
     key = "transformer:%s:%s" % (kind, metric)
     try:
@@ -145,6 +149,9 @@ def run(res, tier, seed, search):
     epsilon_case(res, rng)
     unfilled_case(res, rng)
     check_case(res, rng, "dot", "dense32")          # the normalising metric has its own glue in the constructor: every seed
+    # random seeding only (no tree), k close to n: every neighbour is reached through the random candidates of the sparse closure
+    for r in range(2):
+        check_case(res, rng, "euclidean", "csr", force={"tree_init": False, "n": 40, "k": 9, "search_epsilon": 0.3})
     check_case(res, rng, "hamming", "csr")           # so do the sparse metrics that take the feature count (n_samples != n_features)
     start = (seed * nc) % len(COMBOS)
     for i in range(nc):
